@@ -142,7 +142,8 @@ type c09Event struct {
 	Adv  string            `json:"adv,omitempty"` // adversarial class ("" = legitimate)
 	S    uint32            `json:"s,omitempty"`   // selector inside the adversarial class / among legitimate signers
 	Head bool              `json:"head,omitempty"`
-	Rot  uint8             `json:"rot,omitempty"` // rotation of the prevs list
+	NoTP bool              `json:"notp,omitempty"` // no prev names a version of the target DID (forces the "latest version" fallback)
+	Rot  uint8             `json:"rot,omitempty"`  // rotation of the prevs list
 	Mut  *jsonmut.Mutation `json:"mut,omitempty"`
 }
 
@@ -228,6 +229,7 @@ var c09DocClasses = []string{"vm-no-fragment", "vm-foreign-prefix", "vm-dup-id",
 	"rel-embedded-foreign-prefix", "rel-embedded-thumb-mismatch", "rel-embedded-no-fragment", "rel-embedded-valid",
 	"rel-embedded-listed-same", "rel-embedded-listed-other-key", "rel-embedded-listed-other-controller", "rel-embedded-listed-other-type",
 	"rel-embedded-dup-same", "rel-embedded-dup-other-key", "rel-embedded-dup-other-controller", "rel-embedded-dup-other-type",
+	"vm-near-miss-id", "vm-near-miss-id", "vm-near-miss-id", "svc-near-miss-id", "svc-near-miss-id", "svc-near-miss-id",
 	"core-no-context", "core-vm-no-type", "core-vm-no-controller", "core-svc-no-type", "core-svc-no-endpoint"}
 
 var c09Ops = []string{"create", "create", "create", "addkey", "addkey", "addkey", "rmkey", "rotate", "rotate", "rotate", "rotate",
@@ -242,6 +244,7 @@ func c09GenEvent(t *rapid.T) c09Event {
 		Rel:  uint8(rapid.IntRange(1, 31).Draw(t, "rel")),
 		S:    rapid.Uint32Range(0, 63).Draw(t, "s"),
 		Head: rapid.Bool().Draw(t, "head"),
+		NoTP: rapid.IntRange(0, 5).Draw(t, "notp") == 0,
 		Rot:  uint8(rapid.IntRange(0, 3).Draw(t, "rot")),
 	}
 	switch g := rapid.IntRange(0, 19).Draw(t, "advgroup"); {
@@ -384,9 +387,10 @@ type c09World struct {
 	clocks  map[hash.SHA256Hash]uint32
 	stop    bool
 	// raw content of the database file after the previous offer (bucket/key -> value) and the copy it was read from
-	snap     map[string]string
-	snapPath string
-	nsnap    int
+	twistKind string
+	snap      map[string]string
+	snapPath  string
+	nsnap     int
 }
 
 func (w *c09World) freshKey() int {
@@ -636,7 +640,35 @@ func c09List(doc map[string]any, key string) []any {
 
 // twistDoc makes the document violate exactly one rule. It only ever adds entries (a fresh key / service), so that the
 // rest of the document stays a legitimate edit. other = a DID string different from id.
+// c09NearMiss: ids whose DID part is almost, but not, the document's DID (must be refused), and ids whose DID part is the
+// document's DID but that carry a path / query / second '#' (the statement only says "prefixed by the DID": no verdict).
+var c09NearMissKinds = []string{"x", "colon-x", "pct", "short", "case", "x", "pct", "path", "query", "frag2"}
+
+func c09NearMiss(id, kind string) (didPart string, fragSuffix string) {
+	switch kind {
+	case "x":
+		return id + "x", ""
+	case "colon-x":
+		return id + ":x", ""
+	case "pct":
+		return id + "%41", ""
+	case "short":
+		return id[:len(id)-1], ""
+	case "case":
+		return c09Spell(id, "create-did-case", 7, 0), ""
+	case "path":
+		return id + "/path", ""
+	case "query":
+		return id + "?q=1", ""
+	case "frag2":
+		return id, "#b"
+	}
+	return id, ""
+}
+
+// twistKind is set by twistDoc for classes that have several kinds (refines the class name and decides the verdict).
 func (w *c09World) twistDoc(doc map[string]any, id, other, class string, sel uint32) bool {
+	w.twistKind = ""
 	keys := c09Keys()
 	k1, k2 := w.freshKey(), w.freshKey()
 	vm := func(vid string, k int) map[string]any {
@@ -651,6 +683,14 @@ func (w *c09World) twistDoc(doc map[string]any, id, other, class string, sel uin
 		addVM(vm(id, k1))
 	case "vm-foreign-prefix":
 		addVM(vm(other+"#"+keys[k1].frag, k1))
+	case "vm-near-miss-id":
+		w.twistKind = c09NearMissKinds[int(sel)%len(c09NearMissKinds)]
+		dp, suffix := c09NearMiss(id, w.twistKind)
+		addVM(vm(dp+"#"+keys[k1].frag+suffix, k1))
+	case "svc-near-miss-id":
+		w.twistKind = c09NearMissKinds[int(sel)%len(c09NearMissKinds)]
+		dp, suffix := c09NearMiss(id, w.twistKind)
+		addSvc(map[string]any{"id": dp + "#svc-near" + suffix, "type": "x-near", "serviceEndpoint": "https://example.com/a"})
 	case "vm-dup-id":
 		if l := c09List(doc, "verificationMethod"); len(l) > 0 && sel%2 == 0 {
 			addVM(jsonmut.Clone(l[int(sel/2)%len(l)]).(map[string]any))
@@ -876,17 +916,28 @@ func c09WellFormed(doc map[string]any, id string) (rule string, detail string) {
 	if !hasCtx {
 		return "context", "DID v1 context missing"
 	}
+	// didPart: the id up to the first '/', '?' or '#'; frag: what follows the first '#'
+	split := func(eid string) (didPart, frag string, plain bool) {
+		i := strings.IndexAny(eid, "/?#")
+		if i < 0 {
+			return eid, "", true
+		}
+		if j := strings.Index(eid, "#"); j >= 0 {
+			frag = eid[j+1:]
+		}
+		return eid[:i], frag, eid[i] == '#'
+	}
 	checkVM := func(m map[string]any, where string) (string, string) {
 		vid, _ := m["id"].(string)
-		if !strings.HasPrefix(vid, id+"#") {
-			if !strings.Contains(vid, "#") {
-				return where + "-no-fragment", vid
-			}
+		dp, frag, plain := split(vid)
+		if dp != id {
 			return where + "-prefix", vid
 		}
-		frag := strings.TrimPrefix(vid, id+"#")
 		if frag == "" {
 			return where + "-no-fragment", vid
+		}
+		if !plain {
+			return "", "" // a path or query between DID and fragment: the statement is silent, nothing demanded
 		}
 		if ty, _ := m["type"].(string); strings.TrimSpace(ty) == "" {
 			return where + "-no-type", vid
@@ -957,13 +1008,9 @@ func c09WellFormed(doc map[string]any, id string) (rule string, detail string) {
 		}
 		sid, _ := m["id"].(string)
 		ty, _ := m["type"].(string)
-		if !strings.HasPrefix(sid, id+"#") {
-			if !strings.Contains(sid, "#") {
-				return "svc-no-fragment", sid
-			}
+		if dp, frag, _ := split(sid); dp != id {
 			return "svc-prefix", sid
-		}
-		if sid == id+"#" {
+		} else if frag == "" {
 			return "svc-no-fragment", sid
 		}
 		if sids[sid] {
@@ -1226,6 +1273,7 @@ type c09Offer struct {
 	mustAccept bool
 	class      string
 	keys       []int
+	noTP       bool // no prev names a version of the target: when accepted the store forks, the record cannot follow
 	tick       int  // when > 0: the (already reserved) signing time slot, instead of the next one
 	noRecord   bool // the caller keeps the record itself (fork branches)
 	// set by offer
@@ -1384,6 +1432,11 @@ func (w *c09World) offer(o *c09Offer) bool {
 		return false
 	}
 	if o.noRecord {
+		return true
+	}
+	if o.noTP && o.mustReject == "" {
+		x.Class("stopped:accepted-without-naming-the-target(fork)")
+		w.stop = true
 		return true
 	}
 
@@ -1559,6 +1612,9 @@ func (w *c09World) create(i int, ev c09Event) {
 		w.mutate(o, doc, ev)
 	case isDoc:
 		if w.twistDoc(doc, id, w.otherDID(id), adv, ev.S) {
+			if w.twistKind != "" {
+				adv += ":" + w.twistKind
+			}
 			// an embedded copy of a listed method is equivalent to a reference: such a document must stay acceptable
 			o.class, o.mustAccept, o.specExact = adv, o.mustAccept && adv == "rel-embedded-listed-same", false
 			o.mustReject = c09DocSig(adv)
@@ -1618,6 +1674,10 @@ func (w *c09World) create(i int, ev c09Event) {
 // c09DocSig: one signature per rule; the three embedded-method variants share a root cause, hence a signature.
 func c09DocSig(class string) string {
 	switch class {
+	case "vm-near-miss-id:path", "vm-near-miss-id:query", "svc-near-miss-id:path", "svc-near-miss-id:query", "svc-near-miss-id:frag2":
+		return "" // the DID part of the id equals the document's DID: nothing demanded
+	case "vm-near-miss-id:frag2":
+		return "accepted-invalid-doc:vm-thumb-mismatch" // the fragment is not the thumbprint
 	case "rel-embedded-valid", "rel-embedded-dup-same", "rel-embedded-listed-same":
 		return "" // well-formed: no refusal demanded
 	case "rel-embedded-listed-other-key", "rel-embedded-listed-other-controller", "rel-embedded-listed-other-type":
@@ -1627,6 +1687,9 @@ func c09DocSig(class string) string {
 	}
 	if strings.HasPrefix(class, "rel-embedded-") {
 		return "accepted-invalid-doc:rel-embedded-vm"
+	}
+	if i := strings.Index(class, ":"); i > 0 {
+		return "accepted-invalid-doc:" + class[:i] // one signature for all near-miss kinds of a family
 	}
 	return "accepted-invalid-doc:" + class
 }
@@ -1890,6 +1953,9 @@ func (w *c09World) update(i int, ev c09Event) {
 			w.mutate(o, doc, ev)
 		} else if adv != "" {
 			if w.twistDoc(doc, d.id, w.otherDID(d.id), adv, ev.S) {
+				if w.twistKind != "" {
+					adv += ":" + w.twistKind
+				}
 				o.class, o.mustAccept, o.specExact = adv, o.mustAccept && adv == "rel-embedded-listed-same", false
 				o.mustReject = c09DocSig(adv)
 			}
@@ -2020,6 +2086,43 @@ func (w *c09World) update(i int, ev c09Event) {
 		x.NonTrivial()
 	}
 	_ = odd
+	if ev.NoTP && o.di == d.idx && (o.mustReject != "" || ev.S%3 == 0) {
+		// No prev names a version of the target: the node falls back to the latest version, which is what the record judges
+		// by anyway. Unauthorised stays unauthorised; for an authorised signer nothing is demanded (it forks the history).
+		own := map[hash.SHA256Hash]bool{}
+		for _, v := range d.vers {
+			own[v.ref] = true
+		}
+		for _, r := range d.forkRefs {
+			own[r] = true
+		}
+		var kept []hash.SHA256Hash
+		for _, r := range o.prevs {
+			if !own[r] {
+				kept = append(kept, r)
+			}
+		}
+		if len(kept) == 0 {
+			// nothing left (the key lives in the target itself): name an unrelated transaction
+			if !own[w.head] {
+				kept = append(kept, w.head)
+			} else {
+				for _, od := range w.dids {
+					if od.idx != d.idx {
+						kept = append(kept, od.latest().ref)
+						break
+					}
+				}
+			}
+		}
+		if len(kept) > 0 {
+			o.prevs, o.noTP, o.mustAccept = kept, true, false
+			o.class += "/no-target-prev"
+			if strings.HasPrefix(o.mustReject, "accepted-unauthorised:") {
+				o.mustReject += "/no-target-prev" // the fallback route is a mechanism of its own
+			}
+		}
+	}
 	if o.payload == nil {
 		o.payload = w.encode(doc)
 	}
@@ -2246,6 +2349,11 @@ func (w *c09World) fork(i int, ev c09Event) {
 			class := "forked-deactivated-controller+proxy"
 			if t == a {
 				class = "forked-deactivated-self+proxy"
+			}
+			if (int(ev.S)+ki+ti)%2 == 0 {
+				// only the proxy's transaction: no prev names a version of the target, the node falls back to its latest version
+				refs = []hash.SHA256Hash{proxy.latest().ref}
+				class += "/no-target-prev"
 			}
 			o := &c09Offer{label: fmt.Sprintf("event %d fork:proxy", i), op: "addkey", class: class, di: t.idx, target: t.id, newKey: -1,
 				spec: spec, specExact: true, payload: w.encode(w.rawDoc(t.id, spec)), signKey: k, kid: proxy.id + "#" + keys[k].frag, embed: -1, prevs: refs,
